@@ -111,10 +111,17 @@ func GenNaturalNumberEncode(code string, isTlv bool) (string, error) {
 }
 
 func GenTlvNumberDecode(code string) (string, error) {
+	// A TLV length is untrusted input: reject it before any field reader sizes an
+	// allocation from it (or converts it to a negative int) if it exceeds what is left.
 	const Temp = `{{.}}, err = enc.ReadTLNum(reader)
 	if err != nil {
 		return nil, enc.ErrFailToParse{TypeNum: 0, Err: err}
-	}`
+	}
+	{{- if eq . "l"}}
+	if l > enc.TLNum(reader.Length()-reader.Pos()) {
+		return nil, enc.ErrFailToParse{TypeNum: typ, Err: io.ErrUnexpectedEOF}
+	}
+	{{- end}}`
 	t := template.Must(template.New("TlvNumberDecode").Parse(Temp))
 	b := strings.Builder{}
 	err := t.Execute(&b, code)
